@@ -52,7 +52,14 @@ type c40dCase struct {
 	Acts     []cbAct `json:"acts"`
 	End      string  `json:"end"` // ok | err | panic
 	Swallow  bool    `json:"swallow,omitempty"` // executor recovers its own gas panic and returns an error
+	// SwallowNil: executor recovers its own gas panic and reports success. Never generated
+	// (known-finding candidate, see TestC40KnownSwallowedOOG); Excluded counts the draws that
+	// were turned into Swallow instead.
+	SwallowNil bool `json:"swallow_nil,omitempty"`
+	Excluded   bool `json:"excluded_known,omitempty"`
 }
+
+const sigSwallowedOOG = "oog-swallowed-then-success-commits-writes"
 
 var cbTypes = []cbtypes.CallbackType{cbtypes.CallbackTypeSendPacket, cbtypes.CallbackTypeAcknowledgementPacket, cbtypes.CallbackTypeTimeoutPacket, cbtypes.CallbackTypeReceivePacket}
 
@@ -188,7 +195,12 @@ func genC40d(t *rapid.T) c40dCase {
 		}
 	}
 	c.End = rapid.SampledFrom([]string{"ok", "ok", "err", "panic"}).Draw(t, "end")
-	c.Swallow = rapid.IntRange(0, 7).Draw(t, "swallow") == 0
+	switch rapid.IntRange(0, 15).Draw(t, "swallow") {
+	case 0, 1:
+		c.Swallow = true
+	case 2:
+		c.Swallow, c.Excluded = true, true // would be SwallowNil: excluded by construction
+	}
 	return c
 }
 
@@ -322,7 +334,13 @@ func runC40d(w *sim.World) func(rapid.TB, c40dCase, *vx.Case) {
 		case execPanics:
 			outcome = "gaspanic" // overflow on a meter that cannot be exceeded
 		}
-		executorPanics := (execPanics && !c.Swallow) || (!execPanics && c.End == "panic")
+		if c.SwallowNil && execPanics && !pastLimit {
+			outcome = "ok" // swallowed an overflow on an unlimited meter and reported success: not a failure
+		}
+		if c.Excluded {
+			rec.Add("excluded_known", 1)
+		}
+		executorPanics := (execPanics && !c.Swallow && !c.SwallowNil) || (!execPanics && c.End == "panic")
 		failed := outcome != "ok"
 		retry := exec < commit
 		mustPanic := pastLimit && retry
@@ -332,7 +350,7 @@ func runC40d(w *sim.World) func(rapid.TB, c40dCase, *vx.Case) {
 		seenOutcome := ""
 		executor := func(cctx sdk.Context) (err error) {
 			inner = cctx
-			if c.Swallow {
+			if c.Swallow || c.SwallowNil {
 				defer func() {
 					if r := recover(); r != nil {
 						if _, ok := r.(scriptedPanic); ok {
@@ -340,6 +358,9 @@ func runC40d(w *sim.World) func(rapid.TB, c40dCase, *vx.Case) {
 						}
 						seenOutcome = "gas-panic-swallowed"
 						err = errors.New("contract ran out of gas")
+						if c.SwallowNil {
+							err = nil
+						}
 					}
 				}()
 			}
@@ -401,6 +422,11 @@ func runC40d(w *sim.World) func(rapid.TB, c40dCase, *vx.Case) {
 		for n := uint64(0); n < 4; n++ {
 			if free.KVStore(storeKey).Has(c40Key(n)) {
 				present++
+				if failed && c.SwallowNil {
+					if vx.Violatef(t, rec, id, sigSwallowedOOG, "callback exceeded its gas limit, swallowed the out-of-gas panic and returned nil: ProcessCallback reports %v but key %d written by the callback is visible to the caller; %s", cbErr, n, desc) {
+						return
+					}
+				}
 				if failed {
 					vx.Violatef(t, rec, id, "failed-callback-writes-persist", "key %d written by a failed callback is visible to the caller; %s", n, desc)
 				}
@@ -476,5 +502,27 @@ func TestC40Direct(t *testing.T) {
 		MinNTFrac: 0.4,
 		Gen:       genC40d,
 		Run:       runC40d(w),
+	})
+}
+
+// TestC40KnownSwallowedOOG re-demonstrates, deterministically, the one behaviour excluded from
+// the generator: a callback that exceeds its gas limit, recovers the out-of-gas panic itself
+// and returns nil. ProcessCallback commits the callback's writes (writeFn runs because the
+// executor returned nil) and only afterwards notices the exceeded meter and reports
+// ErrCallbackOutOfGas - "ran out of gas" without "state changes discarded".
+func TestC40KnownSwallowedOOG(t *testing.T) {
+	w := sim.NewWorld(t, 1, nil)
+	fixed := c40dCase{Type: 1, Limit: 10_000_000, UserForm: 2, User: 100_000, Max: 1_000_000,
+		Acts: []cbAct{{K: "w", N: 0}, {K: "g", N: 200_000}}, End: "ok", SwallowNil: true}
+	vx.Check(t, vx.Prop[c40dCase]{
+		ID:        "C40",
+		Rule:      "deterministic re-demonstration of the excluded behaviour (executor swallows its own out-of-gas panic and returns nil) for ack and timeout callbacks",
+		MinNTFrac: 0,
+		Gen: func(rt *rapid.T) c40dCase {
+			c := fixed
+			c.Type = rapid.SampledFrom([]int{1, 2}).Draw(rt, "type")
+			return c
+		},
+		Run: runC40d(w),
 	})
 }
